@@ -376,7 +376,38 @@ def vs_real(op, A, B=None, extra=()):
         return call(lambda x, y: x.LShR(y), a, obj(B))
     if op == "eq":
         return call(lambda x, y: x == y, a, obj(B))
+    if op == "ne":
+        return call(lambda x, y: x != y, a, obj(B))
+    if op.startswith("ast_"):
+        return vs_ast_real(op[4:], A, B)
     raise KeyError(op)
+
+
+def vs_ast(X):
+    """the claripy AST of a value set / interval description (union of one ValueSet leaf per region)"""
+    import claripy
+    if X[0] == "s":
+        w, st, lb, ub = X[1]
+        return claripy.SI(bits=w, stride=st, lower_bound=lb, upper_bound=ub)
+    u = None
+    for reg, (w, st, lb, ub) in X[2].items():
+        e = claripy.ValueSet(w, reg, 0, claripy.SI(bits=w, stride=st, lower_bound=lb, upper_bound=ub))
+        u = e if u is None else u.union(e)
+    return u
+
+
+def vs_ast_real(op, A, B):
+    """union / intersection / widen of two value sets built as ASTs, evaluated by the VSA backend"""
+    import claripy
+    try:
+        aa, bb = vs_ast(A), vs_ast(B)
+        if aa is None or bb is None:
+            return ("val", "empty-operand")
+        return canon_obj(claripy.backends.vsa.convert(getattr(aa, op)(bb)))
+    except RecursionError:
+        return ("err", "RecursionError")
+    except Exception as e:  # noqa
+        return ("err", type(e).__name__)
 
 
 VS_HIST = {"union": lambda a, b: a.union(b), "intersection": lambda a, b: a.intersection(b), "widen": lambda a, b: a.widen(b),
@@ -476,6 +507,31 @@ def vs_oracle(op, A, B, extra, r):
                     if not vsa.member(r[1], (x - y) & M(w)):
                         return ("unsound", "region %s: %d - %d missing" % (reg, x, y))
         return None
+    if op in ("eq", "ne"):
+        # members of a value set are (region, offset) pairs; an interval operand is an offset in the region "global"
+        if r[0] != "bool":
+            return ("malformed", "not a BoolResult: %r" % (r,))
+        ma = {(reg, x) for reg, t in regs.items() for x in vsa.gamma(t)}
+        mb = {(reg, x) for reg, t in B[2].items() for x in vsa.gamma(t)} if B[0] == "v" else {("global", x) for x in vsa.gamma(B[1])}
+        if not ma or not mb:
+            return None
+        need = set()
+        if ma & mb:
+            need.add("T" if op == "eq" else "F")
+        if len(ma | mb) > 1:
+            need.add("F" if op == "eq" else "T")
+        miss = need - set(r[1])
+        if miss:
+            if ("T" if op == "eq" else "F") in miss:
+                p = sorted(ma & mb)[0]; q = p
+            else:
+                p, q = next((p, q) for p in sorted(ma) for q in sorted(mb) if p != q)
+            return ("unsound", "left member %s, right member %s give %s, result {%s}" % (p, q, sorted(miss)[0], r[1]))
+        return None
+    if op.startswith("ast_"):
+        if r == ("val", "empty-operand"):
+            return None
+        op = op[4:]
     if op in ("union", "widen", "intersection"):
         if r[0] != "vs":
             return ("malformed", "unexpected result %r" % (r,))
